@@ -231,9 +231,7 @@ impl<'a> Msg<'a> {
         match m.typ {
             create::CREATE => Ok(Msg::Cr(create::Msg::from_raw_msg(m)?)),
             measure::MEASURE => Ok(Msg::Ms(measure::Msg::from_raw_msg(m)?)),
-            install::INSTALL => Ok(Msg::Ins(install::Msg::from_raw_msg(m)?)),
             ready::READY => Ok(Msg::Rdy(ready::Msg::from_raw_msg(m)?)),
-            update_field::UPDATE_FIELD => unimplemented!(),
             _ => Ok(Msg::Other(m)),
         }
     }
